@@ -27,6 +27,7 @@ type tsResp struct {
 	phys, logical int64
 	bits, count   uint32
 	inv, ret      int
+	invAt         time.Time
 	lo, hi        uint64
 	stride        uint64
 	view          map[string]bool // global only: dc-locations in the serving member's view when the request was sent
@@ -62,8 +63,10 @@ type tsoOracle struct {
 	maxTS       uint64
 	lastElected map[string]int // allocator -> step of its latest successful campaign
 	suffixStep  map[string]int
-	genSeen     map[int]int     // node -> step of the latest observation
-	gen         map[int][]genAt // node -> observed changes of the global allocator's in-memory (physical, logical)
+	suffixTime  map[string]time.Time // dc -> when its suffix was assigned
+	electedTime map[string]time.Time // allocator -> time of its latest successful campaign
+	genSeen     map[int]int          // node -> step of the latest observation
+	gen         map[int][]genAt      // node -> observed changes of the global allocator's in-memory (physical, logical)
 }
 
 // genAt: the global allocator's in-memory TSO of a node as observed after a scheduler step.
@@ -77,7 +80,7 @@ type genAt struct {
 func newTSOOracle(rc *core.RunCtx, e *Env) *tsoOracle {
 	o := &tsoOracle{rc: rc, e: e, all: map[string][]tsResp{}, prefMax: map[string][]uint64{}, rets: map[string][]int{},
 		stored: map[string]int64{}, ackedFloor: map[string]int64{}, leaderVal: map[string]string{}, leases: map[int64]*leaseOwn{}, keyLease: map[string][]*leaseOwn{},
-		memberOf: map[string]int{}, suffixes: map[string]string{}, lastElected: map[string]int{}, suffixStep: map[string]int{}, gen: map[int][]genAt{}, genSeen: map[int]int{}}
+		memberOf: map[string]int{}, suffixes: map[string]string{}, lastElected: map[string]int{}, suffixStep: map[string]int{}, gen: map[int][]genAt{}, genSeen: map[int]int{}, suffixTime: map[string]time.Time{}, electedTime: map[string]time.Time{}}
 	e.W.Etcd.OnCommit = append(e.W.Etcd.OnCommit, o.onCommit)
 	return o
 }
@@ -169,6 +172,7 @@ func (o *tsoOracle) onCommit(c *simetcd.Commit) {
 			}
 			if _, ok := o.suffixes[dc]; !ok {
 				o.suffixStep[dc] = c.Step
+				o.suffixTime[dc] = time.Now()
 			}
 			o.suffixes[dc] = string(ch.Cur.Value)
 		}
@@ -180,8 +184,10 @@ func (o *tsoOracle) onCommit(c *simetcd.Commit) {
 			if ch.Cur != nil {
 				if path.Base(key) == "leader" {
 					o.lastElected["global"] = c.Step
+					o.electedTime["global"] = time.Now()
 				} else {
 					o.lastElected[path.Base(key)] = c.Step
+					o.electedTime[path.Base(key)] = time.Now()
 				}
 				o.leaderVal[key] = string(ch.Cur.Value)
 				if ch.Cur.Lease != 0 {
@@ -303,6 +309,28 @@ func (o *tsoOracle) monitorC02() {
 	}
 }
 
+// widthClass: a too small suffix width is a known transient while the serving member's in-memory view of the
+// dc-locations / max suffix may still be stale (it is refreshed once a minute and at elections); long after the suffix
+// was assigned and after the last election of the PD leader and of the allocator it is a different failure.
+func (o *tsoOracle) widthClass(r tsResp, dc string) string {
+	if r.invAt.IsZero() {
+		return "suffix-width-too-small"
+	}
+	latest := o.suffixTime[dc]
+	for _, k := range []string{"global", r.alloc} {
+		if t := o.electedTime[k]; t.After(latest) {
+			latest = t
+		}
+	}
+	if n := o.e.W.Nodes[r.node]; n.StartedAt.After(latest) {
+		latest = n.StartedAt
+	}
+	if r.invAt.Sub(latest) > 70*time.Second {
+		return "suffix-width-still-too-small-after-refresh-interval"
+	}
+	return "suffix-width-too-small"
+}
+
 // observe checks one successful TSO response.
 func (o *tsoOracle) observe(r tsResp) {
 	rc := o.rc
@@ -374,7 +402,7 @@ func (o *tsoOracle) observe(r tsResp) {
 					continue
 				}
 				if sfx, err := strconv.Atoi(sv); err == nil && sfx > 0 && (1<<r.bits) <= sfx && dc != r.alloc {
-					rc.Violate("c05.suffix", "suffix-width-too-small", "%s granted [%d.%d count %d] reporting %d suffix bits although suffix %d was assigned to %s at step %d (node %d)", r.alloc, r.phys, r.logical, r.count, r.bits, sfx, dc, o.suffixStep[dc], r.node)
+					rc.Violate("c05.suffix", o.widthClass(r, dc), "%s granted [%d.%d count %d] reporting %d suffix bits although suffix %d was assigned to %s at step %d (node %d)", r.alloc, r.phys, r.logical, r.count, r.bits, sfx, dc, o.suffixStep[dc], r.node)
 					return
 				}
 			}
@@ -391,7 +419,7 @@ func (o *tsoOracle) observe(r tsResp) {
 							note = fmt.Sprintf(" (the serving member's in-memory max-suffix view is %d, below the allocator's own suffix)", vm)
 						}
 					}
-					rc.Violate("c05.suffix", "suffix-width-too-small", "local %s (suffix %d) granted [%d.%d count %d] reporting %d suffix bits (node %d)%s", r.alloc, sfx, r.phys, r.logical, r.count, r.bits, r.node, note)
+					rc.Violate("c05.suffix", o.widthClass(r, r.alloc), "local %s (suffix %d) granted [%d.%d count %d] reporting %d suffix bits (node %d)%s", r.alloc, sfx, r.phys, r.logical, r.count, r.bits, r.node, note)
 					return
 				}
 			}
@@ -527,6 +555,7 @@ func (e *Env) tsoClient(name string, o *tsoOracle, cfg tsoClientCfg, done *int) 
 			}
 			req := &pdpb.TsoRequest{Header: &pdpb.RequestHeader{ClusterId: e.ClusterID}, Count: count, DcLocation: cfg.dc}
 			inv := s.Step
+			invAt := time.Now()
 			node := target.ID
 			var view map[string]bool
 			if alloc == "global" && target.Srv != nil {
@@ -563,7 +592,7 @@ func (e *Env) tsoClient(name string, o *tsoOracle, cfg tsoClientCfg, done *int) 
 			if e.OnTSOResp != nil {
 				e.OnTSOResp(node, inv, ret, alloc, ts.GetPhysical(), ts.GetLogical(), ts.GetSuffixBits())
 			}
-			o.observe(tsResp{alloc: alloc, node: node, phys: ts.GetPhysical(), logical: ts.GetLogical(), bits: ts.GetSuffixBits(), count: count, inv: inv, ret: ret, view: view})
+			o.observe(tsResp{alloc: alloc, node: node, phys: ts.GetPhysical(), logical: ts.GetLogical(), bits: ts.GetSuffixBits(), count: count, inv: inv, invAt: invAt, ret: ret, view: view})
 			if cfg.maxGap > 0 {
 				simrt.Sleep(time.Duration(s.Choose(int(cfg.maxGap/time.Millisecond)+1, "tso.gap")) * time.Millisecond)
 			} else {
